@@ -271,7 +271,9 @@ def random_program(rng, K, g, n_ops):
     for _ in range(n_ops):
         r = rng.random()
         if r < 0.45 and len(knots) < 9:
-            T = seg(1, True)          # pieces start at the identity: concat_local stays continuous
+            # most appended pieces start at the identity (concat_local stays continuous); the others make y jump by
+            # x2(0) at the junction, which the property also determines: y(t) = x1(t1) * x2(t - t1)
+            T = seg(1, rng.random() < 0.65)
             lines.append("catl 0 1")
             tmax += T
             knots.append(tmax)
@@ -402,7 +404,7 @@ def check(prop, tier, seed, replay=None):
         # (B1) TLC behaviours replayed on Spline<K,double>
         nbeh = 0
         for K in (1, 2, 3):
-            hists, r, viol = simulate_behaviours(K, 3 if quick else 60, 3 if quick else 5, seed + K, workdir, light=quick)
+            hists, r, viol = simulate_behaviours(K, 8 if quick else 60, 3 if quick else 5, seed + K, workdir, light=quick)
             if viol:
                 oc.bad_step({"clause": "C12.model.refinement", "op": "simulate", "stratum": f"K{K}", "err": "invariant violated in simulation", "tol": "exact"},
                             {"family": "spline", "tlc_tail": r["out"][-3000:]})
@@ -412,9 +414,32 @@ def check(prop, tier, seed, replay=None):
                 uniq[json.dumps(h)] = h
             hs = list(uniq.values())
             rng.shuffle(hs)
-            # prefer behaviours that contain crops
+            # prefer behaviours that contain crops, but keep every kind of step in the sample: an appended piece that
+            # does not start at the identity (concat_local / concat_global), localised and global crops
+            def kinds(h):
+                ks = set()
+                for st_ in h[1:]:
+                    if st_[0] in ("catl", "catg"):
+                        ks.add((st_[0], st_[3][0] != 0))
+                    elif st_[0] == "crop":
+                        ks.add(("crop", bool(st_[3])))
+                return ks
             hs.sort(key=lambda h: -sum(1 for s in h if s[0] == "crop"))
-            hs = hs[: (15 if quick else 600)]
+            limit = 15 if quick else 600
+            chosen, seen = [], set()
+            for h in hs:                       # first one behaviour per not yet seen kind of step
+                if kinds(h) - seen:
+                    chosen.append(h)
+                    seen |= kinds(h)
+            for h in hs:
+                if len(chosen) >= limit:
+                    break
+                if h not in chosen:
+                    chosen.append(h)
+            hs = chosen
+            for need_kind in (("catl", True), ("catl", False), ("catg", True), ("crop", True), ("crop", False)):
+                if need_kind not in seen:
+                    raise V.ToolFailure(f"no TLC behaviour with a step of kind {need_kind} was generated (K={K})")
             if not hs:
                 raise V.ToolFailure("no behaviours were generated by TLC simulation")
             exe = exe_for(K, 0)
